@@ -74,6 +74,74 @@ def outside_lower(n, bound, k):
     return out
 
 
+def NINT(npts):
+    """number of integer-valued inside points per object of the cheap plain families (the matrix-valued ones -
+    Gaussian, GMRF, CMRF - and the composites take npts of them)"""
+    return min(npts + 1, 3)
+
+
+def int_points(dim, k, npts, lo=None, hi=None, boundary_out=False, keep=None):
+    """INTEGER-VALUED evaluation points of the box support prod_i (lo_i, hi_i) (None = unbounded), to be handed to
+    gradient() in every representation of the point (float64 / int64 / list / float32 / python scalar).
+
+    inside : npts points whose coordinates are integers at distance >= 1/4 from every finite bound (taken cyclically
+             from the window of admissible integers, mixed signs where the support allows); none when some
+             coordinate admits no such integer (e.g. the open unit interval)
+    outside: one coordinate below / above (others inside), all coordinates below / above, and - when the family
+             excludes its boundary (boundary_out) and a bound is an integer - one coordinate on the boundary
+    keep   : optional predicate on inside points (distance from kinks)"""
+    lo_v = np.full(dim, -np.inf) if lo is None else np.broadcast_to(np.asarray(lo, float), (dim,)).copy()
+    hi_v = np.full(dim, np.inf) if hi is None else np.broadcast_to(np.asarray(hi, float), (dim,)).copy()
+    windows = []
+    for i in range(dim):
+        a = int(np.ceil(lo_v[i] + 0.25)) if np.isfinite(lo_v[i]) else (-3 if not np.isfinite(hi_v[i]) else int(np.floor(hi_v[i] - 0.25)) - 6)
+        b = int(np.floor(hi_v[i] - 0.25)) if np.isfinite(hi_v[i]) else a + 6
+        windows.append(list(range(a, min(b, a + 6) + 1)))
+    inside = []
+    if all(windows):
+        order = [2, -3, 1, -1, 3, -2, 0]          # positions in the window: mixed signs on the real line, zero last
+        j = 0
+        while len(inside) < npts and j < npts + 4:
+            x = np.array([w[order[(i + k + 2 * j) % len(order)] % len(w)] for i, w in enumerate(windows)], dtype=float)
+            j += 1
+            if keep is not None and not keep(x):
+                continue
+            if any(np.array_equal(x, y) for _, y in inside):
+                continue
+            inside.append(("int%d" % len(inside), x))
+    below = np.floor(lo_v - 0.25)       # nearest integers strictly outside (at distance >= 1/4)
+    above = np.ceil(hi_v + 0.25)
+    outside = []
+    base = inside[0][1] if inside else None
+    if base is not None and np.isfinite(lo_v[0]):
+        x = base.copy(); x[0] = below[0]
+        outside.append(("int-one-below", x))
+    if base is not None and np.isfinite(hi_v[-1]):
+        x = base.copy(); x[-1] = above[-1]
+        outside.append(("int-one-above", x))
+    if np.all(np.isfinite(lo_v)):
+        outside.append(("int-all-below", below - np.arange(dim) % 2))
+    if np.all(np.isfinite(hi_v)):
+        outside.append(("int-all-above", above + np.arange(dim) % 2))
+    if boundary_out:
+        if np.isfinite(lo_v[-1]) and lo_v[-1] == np.rint(lo_v[-1]):
+            x = base.copy() if base is not None else np.where(np.isfinite(lo_v), np.rint(lo_v), 1.0)
+            x[-1] = lo_v[-1]
+            outside.append(("int-on-boundary-low", x))
+        if np.isfinite(hi_v[0]) and hi_v[0] == np.rint(hi_v[0]):
+            x = base.copy() if base is not None else np.where(np.isfinite(hi_v), np.rint(hi_v), 1.0)
+            x[0] = hi_v[0]
+            outside.append(("int-on-boundary-high", x))
+    outside = [(n_, x) for n_, x in outside if np.array_equal(x, np.rint(x))]
+    return inside, outside
+
+
+def ipts(dim, k, npts, **kw):
+    """keyword arguments for Case(...) with the integer-valued points"""
+    ins, out = int_points(dim, k, npts, **kw)
+    return {"int_inside": ins, "int_outside": out}
+
+
 @contextlib.contextmanager
 def sparse_threshold(on):
     """Lower cuqi.config.MIN_DIM_SPARSE so that the library's 'sparse_flag' branch is taken at small dim."""
@@ -130,7 +198,7 @@ def gen_gaussian(dim, k, npts, full=True):
                                      "sqrtprec": lambda M: M.T @ M}[param](mat)
                                 mm = np.broadcast_to(np.asarray(m, float), (dim,))
                                 ref_logd = lambda x: -0.5 * float((np.asarray(x, float) - mm) @ P @ (np.asarray(x, float) - mm))
-                            return Case("Gaussian", facets, d, pts, ref_logd=ref_logd)
+                            return Case("Gaussian", facets, d, pts, ref_logd=ref_logd, **ipts(dim, k, npts))
                         yield "Gaussian", keys, facets, build
 
 
@@ -190,7 +258,7 @@ def gen_gmrf(sizes, k, npts):
                             Dr = refs.fd_ref(N, bc, order, 1 if pd == "1d" else 2)
                             Pr = posscalar(k) * (Dr.T @ Dr)
                             ref_logd = lambda x: -0.5 * float((np.asarray(x, float) - mean) @ Pr @ (np.asarray(x, float) - mean))
-                            return Case("GMRF", facets, d, pts, ref_logd=ref_logd)
+                            return Case("GMRF", facets, d, pts, ref_logd=ref_logd, **ipts(dim, k, npts))
                         yield "GMRF", keys, facets, build
 
 
@@ -207,7 +275,7 @@ def gen_cmrf(sizes, k, npts):
 
                 def build(pd=pd, N=N, bc=bc, L=L, facets=facets, pts=pts):
                     d = cuqi.distribution.CMRF(L, [0.5, 2.0, 0.25][k], bc_type=bc, geometry=_mrf_geom(pd, N))
-                    return Case("CMRF", facets, d, pts)
+                    return Case("CMRF", facets, d, pts, **ipts(dim, k, npts))
                 yield "CMRF", keys, facets, build
 
 
@@ -228,9 +296,10 @@ def gen_lmrf(sizes, k, npts):
                     if np.min(np.abs(Dref @ (x - L))) >= 0.03125:     # stay away from the |.| kinks
                         pts.append(("generic%d" % j, x))
 
-                def build(pd=pd, N=N, bc=bc, L=L, facets=facets, pts=pts):
+                def build(pd=pd, N=N, bc=bc, L=L, facets=facets, pts=pts, Dref=Dref, dim=dim):
                     d = cuqi.distribution.LMRF(L, [0.5, 2.0, 0.25][k], bc_type=bc, geometry=_mrf_geom(pd, N))
-                    return Case("LMRF", facets, d, pts)
+                    away = lambda x: bool(np.min(np.abs(Dref @ (x - L))) >= 0.03125)     # stay away from the |.| kinks
+                    return Case("LMRF", facets, d, pts, **ipts(dim, k, NINT(npts), keep=away))
                 yield "LMRF", keys, facets, build
 
 
@@ -264,7 +333,7 @@ def gen_iid_families(dim, k, npts):
                 def build(L=L, lk=lk, sk=sk, g=g, facets=facets):
                     d = D.Cauchy(L if not isinstance(L, np.ndarray) else L.copy(), _sv(sk, posscalar(k), pv),
                                  **geokw(g, lk != "vector" and sk == "scalar"))
-                    return Case("Cauchy", facets, d, real_points(dim, k, npts))
+                    return Case("Cauchy", facets, d, real_points(dim, k, npts), **ipts(dim, k, NINT(npts)))
                 yield "Cauchy", keys, facets, build
 
     # ---- SmoothedLaplace ----------------------------------------------------------------
@@ -279,7 +348,7 @@ def gen_iid_families(dim, k, npts):
                     if beta is not None:
                         kw["beta"] = beta
                     d = D.SmoothedLaplace(L if not isinstance(L, np.ndarray) else L.copy(), _sv(sk, posscalar(k), pv), **kw)
-                    return Case("SmoothedLaplace", facets, d, real_points(dim, k, npts))
+                    return Case("SmoothedLaplace", facets, d, real_points(dim, k, npts), **ipts(dim, k, NINT(npts)))
                 yield "SmoothedLaplace", keys, facets, build
 
     # ---- Beta ---------------------------------------------------------------------------
@@ -295,7 +364,8 @@ def gen_iid_families(dim, k, npts):
                     out = [("one-below", np.r_[-0.25, 0.5 * np.ones(dim - 1)]), ("one-above", np.r_[0.5 * np.ones(dim - 1), 1.25]),
                            ("all-below", -0.25 - 0.125 * np.arange(dim)), ("on-boundary0", np.r_[0.0, 0.5 * np.ones(dim - 1)]),
                            ("on-boundary1", np.r_[0.5 * np.ones(dim - 1), 1.0])]
-                    return Case("Beta", facets, d, unit_points(dim, k, npts), out)
+                    return Case("Beta", facets, d, unit_points(dim, k, npts), out,
+                                **ipts(dim, k, NINT(npts), lo=0.0, hi=1.0, boundary_out=True))
                 yield "Beta", keys, facets, build
 
     # ---- InverseGamma -------------------------------------------------------------------
@@ -310,7 +380,8 @@ def gen_iid_families(dim, k, npts):
                         d = D.InverseGamma(_sv(shk, [3.0, 1.5, 2.0][k], pv + 1.0), L if not isinstance(L, np.ndarray) else L.copy(),
                                            _sv(sk, posscalar(k), pv[::-1]),
                                            **geokw(g, shk == "scalar" and lk != "vector" and sk == "scalar"))
-                        return Case("InverseGamma", facets, d, positive_points(dim, k, npts, shift=L), outside_lower(dim, L, k))
+                        return Case("InverseGamma", facets, d, positive_points(dim, k, npts, shift=L), outside_lower(dim, L, k),
+                                    **ipts(dim, k, NINT(npts), lo=L, boundary_out=True))
                     yield "InverseGamma", keys, facets, build
 
     # ---- ModifiedHalfNormal -------------------------------------------------------------
@@ -323,7 +394,8 @@ def gen_iid_families(dim, k, npts):
             b = _sv(fk, [1.0, 0.5, 2.0][k], pv[::-1])
             c = _sv(fk, [0.5, -1.0, 0.25][k], lv)
             d = D.ModifiedHalfNormal(a, b, c, **geokw("default", fk == "scalar"))
-            return Case("ModifiedHalfNormal", facets, d, positive_points(dim, k, npts), outside_lower(dim, 0.0, k))
+            return Case("ModifiedHalfNormal", facets, d, positive_points(dim, k, npts), outside_lower(dim, 0.0, k),
+                        **ipts(dim, k, NINT(npts), lo=0.0, boundary_out=True))
         yield "ModifiedHalfNormal", keys, facets, build
 
     # ---- Uniform ------------------------------------------------------------------------
@@ -343,7 +415,7 @@ def gen_iid_families(dim, k, npts):
             x1 = mid.copy(); x1[0] = lo_v[0] - 0.25
             x2 = mid.copy(); x2[-1] = hi_v[-1] + 0.25
             out = [("one-below", x1), ("one-above", x2), ("all-above", hi_v + 0.5)]
-            return Case("Uniform", facets, d, ins, out)
+            return Case("Uniform", facets, d, ins, out, **ipts(dim, k, NINT(npts), lo=lo_v, hi=hi_v))
         yield "Uniform", keys, facets, build
 
     # ---- families without an analytic gradient: Normal, Gamma, Laplace ------------------
@@ -353,12 +425,13 @@ def gen_iid_families(dim, k, npts):
 
         def build_n(fk=fk, facets=facets):
             d = D.Normal(_sv(fk, 0.75, lv), _sv(fk, posscalar(k), pv), **geokw("default", fk == "scalar"))
-            return Case("Normal", facets, d, real_points(dim, k, npts))
+            return Case("Normal", facets, d, real_points(dim, k, npts), **ipts(dim, k, NINT(npts)))
         yield "Normal", keys, facets, build_n
 
         def build_g(fk=fk, facets=facets):
             d = D.Gamma(_sv(fk, [2.5, 1.5, 3.0][k], pv + 0.5), _sv(fk, posscalar(k), pv[::-1]), **geokw("default", fk == "scalar"))
-            return Case("Gamma", facets, d, positive_points(dim, k, npts), outside_lower(dim, 0.0, k)[:2])
+            return Case("Gamma", facets, d, positive_points(dim, k, npts), outside_lower(dim, 0.0, k)[:2],
+                        **ipts(dim, k, NINT(npts), lo=0.0))
         yield "Gamma", keys, facets, build_g
 
         def build_l(fk=fk, facets=facets):
@@ -366,7 +439,7 @@ def gen_iid_families(dim, k, npts):
             d = D.Laplace(L, posscalar(k), **geokw("default", fk == "scalar"))
             Lv = np.broadcast_to(np.asarray(L, float), (dim,))
             pts = [(n_, x) for n_, x in real_points(dim, k, npts) if np.min(np.abs(x - Lv)) >= 0.03125]
-            return Case("Laplace", facets, d, pts)
+            return Case("Laplace", facets, d, pts, **ipts(dim, k, NINT(npts), keep=lambda x: bool(np.min(np.abs(x - Lv)) >= 0.03125)))
         yield "Laplace", keys, facets, build_l
 
     # ---- Lognormal ----------------------------------------------------------------------
@@ -380,7 +453,8 @@ def gen_iid_families(dim, k, npts):
                 def build(m=m, C=C, g=g, facets=facets):
                     kw = {"geometry": _dist_geometry("mapped", dim)} if g == "mapped" else {}
                     d = D.Lognormal(m.copy(), C.copy() if hasattr(C, "copy") else C, **kw)
-                    return Case("Lognormal", facets, d, positive_points(dim, k, npts), outside_lower(dim, 0.0, k))
+                    return Case("Lognormal", facets, d, positive_points(dim, k, npts), outside_lower(dim, 0.0, k),
+                                **ipts(dim, k, NINT(npts), lo=0.0, boundary_out=True))
                 yield "Lognormal", keys, facets, build
 
 
@@ -398,7 +472,7 @@ def gen_user(dim, k, npts):
 
         def build(ug=ug, facets=facets):
             d = D.UserDefinedDistribution(dim=dim, logpdf_func=logpdf, gradient_func=grad if ug == "yes" else None)
-            return Case("UserDefinedDistribution", facets, d, real_points(dim, k, npts))
+            return Case("UserDefinedDistribution", facets, d, real_points(dim, k, npts), **ipts(dim, k, NINT(npts)))
         yield "UserDefinedDistribution", keys, facets, build
     if dim == 2:
         keys = ["name"]
@@ -409,7 +483,8 @@ def gen_user(dim, k, npts):
                 d = D.DistributionGallery(name)
                 pts = [("generic%d" % j, generic(2, k, j) + np.array([0.0625, 0.03125])) for j in range(npts + 2)]
                 pts += [("basis0", np.array([0.5, 0.125])), ("basis1", np.array([-0.125, 0.75]))]
-                return Case("DistributionGallery", facets, d, pts)
+                # integer points: the origin (kink of donut / CalSom91) is excluded
+                return Case("DistributionGallery", facets, d, pts, **ipts(2, k, NINT(npts), keep=lambda x: bool(np.max(np.abs(x)) >= 1)))
             yield "DistributionGallery", keys, facets, build
 
 
@@ -448,5 +523,6 @@ def gen_conditional(dim, k, npts):
                     if comp == "Beta":
                         data = unit_points(dim2, k, 1)[-1][1]
                     obj = cuqi.likelihood.Likelihood(d, data)
-                return Case(comp, facets, obj, pts, fd_targets=[d])
+                ii = [("int0", 1.0 + np.arange(dim2) % 2)]      # the gradient must be refused in every representation too
+                return Case(comp, facets, obj, pts, fd_targets=[d], int_inside=ii)
             yield comp, keys, dict(facets, _fixed="parameter=callable-without-gradient"), build
